@@ -563,6 +563,31 @@ func domTakeover(r *engine.Run, rule string) {
 			bad = r.P.Pos(ret.Pos())
 		}
 	}
+	// the root the state change names is installed on every path, whatever it is
+	// (an empty root is the state after its last entry was removed)
+	var rootAt ssa.Instruction
+	engine.Instrs(f, func(in ssa.Instruction) {
+		if st, ok := in.(*ssa.Store); ok {
+			if fld := engine.FieldOf(st.Addr); fld != nil && fld.Name() == "root" && st.Val == ssa.Value(f.Params[2]) {
+				rootAt = st
+			}
+		}
+		if c, ok := in.(*ssa.Call); ok && rootAt == nil {
+			if sc := c.Call.StaticCallee(); sc != nil && sc.Name() == "setRoot" && len(c.Call.Args) == 2 && c.Call.Args[1] == ssa.Value(f.Params[2]) {
+				rootAt = c
+			}
+		}
+	})
+	installed := rootAt != nil
+	if installed {
+		for _, ret := range engine.Returns(f) {
+			if ret.Block().Comment != "recover" && !engine.InstrDominates(rootAt, ret) {
+				installed = false
+			}
+		}
+	}
+	r.Check(installed, rule, fn(f)+"|root installed", r.P.Pos(f.Pos()), "the given root is installed on every path",
+		"MergeDB does not install the root it is given on every path (a guard such as 'only a non-empty root'): a state change that removes the last entries names the empty root, and a follower that keeps its old root while taking over the dead-node list reports every node below that root as dead - later rounds build on it and a prune wipes it")
 	r.Check(bad == "", rule, fn(f)+"|donor iterated", r.P.Pos(it.Pos()), "the iteration over the donor store dominates every return",
 		"MergeDB returns ("+bad+") without having iterated over the donor store: the donor's nodes never enter the pending changes, so the following save writes nothing and reports success - the root and everything below it is missing from the store")
 }
